@@ -96,16 +96,21 @@ def apalache_records(ck, recs, cinit, timeout=1500):
     return False, idx
 
 
-def decide_apalache(ck, recs, signature, what, replay_of):
-    """Same two-world protocol as decide(), with Apalache as the validator (C39)."""
-    ok, i1 = apalache_records(ck, recs, "CInitIdeal")
-    if ok:
-        return "repaired"
-    rec1 = recs[i1 - 1]
+def decide_apalache(ck, recs, signature, what, replay_of, known_asis=False):
+    """Same two-world protocol as decide(), with Apalache as the validator (C39).
+    known_asis: an earlier chunk already showed (and reported) the as-is behaviour; then the as-is cfg
+    (which accepts both the ideal outputs and the known-finding class) is tried first and alone."""
+    i1 = None
+    if not known_asis:
+        ok, i1 = apalache_records(ck, recs, "CInitIdeal")
+        if ok:
+            return "repaired"
     ok, i2 = apalache_records(ck, recs, "CInitAsIs")
     if ok:
-        ck.setcov("first_record_showing_finding", rec1)
-        ck.report(signature, "%s; first such record #%d: %s" % (what, i1, rec1), {"in": replay_of(rec1), "record": rec1})
+        if i1 is not None:
+            rec1 = recs[i1 - 1]
+            ck.setcov("first_record_showing_finding", rec1)
+            ck.report(signature, "%s; first such record #%d: %s" % (what, i1, rec1), {"in": replay_of(rec1), "record": rec1})
         return "as-is"
     rec2 = recs[i2 - 1]
     ck.violation("record #%d of the real converter rejected by Precision.tla (RecOK / C39 property; as-is and ideal model): %s" % (i2, rec2),
